@@ -1,7 +1,7 @@
 //! Engine S1: the unmodified arch patchers (amd64, arm64-linux, arm64-macos, arm) compiled on
 //! the host against the sparse-memory shim, judged by the independent decoders.
 
-use crate::decoders::*;
+use vcommon::decoders::*;
 use crate::shim::{self, Event};
 use proptest::prelude::*;
 use serde::{Deserialize, Serialize};
